@@ -818,3 +818,6 @@ func firstLines(s string, n int) string {
 	}
 	return strings.Join(l, "\n    ")
 }
+
+// StatesSoFar returns the states counted so far in this part.
+func (t *T) StatesSoFar() int64 { return atomic.LoadInt64(&t.states) }
